@@ -879,6 +879,11 @@ def call_builtin(I, e, name, args, kws):
             out.tags["nonempty"] = True
         else:
             out.tags["iter_elem"] = Val(items=elems, tags={"kind": "tuple"})
+            lens = [len(a.items) for a in args if a.items is not None and a.tag("kind") in ("tuple", "list")]
+            if lens and len(set(lens)) == 1 and all(a.items is not None or a.tag("elem") is not None for a in args):
+                n = lens[0]
+                out.tags["zip_items"] = [Val(items=[(a.items[i] if a.items is not None else a.tag("elem")) for a in args],
+                                             tags={"kind": "tuple"}) for i in range(n)]
         return out
     if name in ("list", "tuple", "sorted", "reversed", "iter"):
         if not args:
